@@ -29,10 +29,11 @@ VARIABLES api,      \* s |-> NULL | [spec, status, ann]
           poolEvt,  \* a pool reconcile is pending
           pass,     \* NULL | [snap, todo, retry]
           nuser, nfault, ncrash,
-          act
+          act,
+          lf        \* history: a List call failed since the last (re)start and the gate is still closed
 
-vars == <<api, cache, cfgApi, ctl, al, gate, svcQ, reload, poolEvt, pass, nuser, nfault, ncrash, act>>
-View == <<api, cache, cfgApi, ctl, al, gate, svcQ, reload, poolEvt, pass, nuser, nfault, ncrash>>
+vars == <<api, cache, cfgApi, ctl, al, gate, svcQ, reload, poolEvt, pass, nuser, nfault, ncrash, act, lf>>
+View == <<api, cache, cfgApi, ctl, al, gate, svcQ, reload, poolEvt, pass, nuser, nfault, ncrash, lf>>
 
 Existing == {s \in Svcs : api[s] # NULL}
 Obj(sp, st, an) == [spec |-> sp, status |-> st, ann |-> an]
@@ -49,6 +50,7 @@ Init ==
   /\ reload = FALSE /\ poolEvt = TRUE /\ pass = NULL
   /\ nuser = 0 /\ nfault = 0 /\ ncrash = 0
   /\ act = [op |-> "Init"]
+  /\ lf = FALSE
 
 (* ---- effects of a change of api[s] on the copies the controller holds -- *)
 (* new value n (NULL = deleted).  Without lag the cache follows at once and *)
@@ -173,6 +175,15 @@ PassBegin ==
   /\ act' = [op |-> "PassBegin"]
   /\ UNCHANGED <<api, cache, cfgApi, ctl, al, gate, svcQ, poolEvt, nuser, nfault, ncrash>>
 
+(* the List call that starts a re-sync pass fails (API error): reprocessAll  *)
+(* returns before any Service is handled, the request is retried later and  *)
+(* nothing else changes - in particular the start-up gate stays closed      *)
+ListFail ==
+  /\ pass = NULL /\ reload /\ nfault < MaxFaults
+  /\ nfault' = nfault + 1
+  /\ act' = [op |-> "ListFail"]
+  /\ UNCHANGED <<api, cache, cfgApi, ctl, al, gate, svcQ, reload, poolEvt, pass, nuser, ncrash>>
+
 (* services with more recorded addresses first; any order among equals     *)
 NextInPass == {s \in pass.todo : \A t \in pass.todo : Len(pass.snap[s].status) >= Len(pass.snap[t].status)}
 
@@ -212,32 +223,40 @@ Crash ==
   /\ Restarted(api)
   /\ act' = [op |-> "Crash"]
 
+(* lf is a history variable: it makes the states that follow a failed List  *)
+(* distinct, so that the edge cover of role B continues *through* the       *)
+(* failure (gated requests, the retried pass) instead of reaching the same  *)
+(* states by another path.  It never influences an action.                  *)
+LfStep == lf' = (IF ncrash' # ncrash \/ gate' THEN FALSE ELSE IF act'.op = "ListFail" THEN TRUE ELSE lf)
+H(A) == A /\ LfStep
+
 Next ==
-  \/ \E s \in Svcs : \E sp \in SpecsOf(s) : UserPut(s, sp)
-  \/ \E s \in Svcs : UserDelete(s)
-  \/ \E L \in LayoutSet : UserLayout(L)
-  \/ \E s \in Svcs : Sync(s)
-  \/ PoolReconcile
-  \/ \E s \in Svcs, w \in WriteFates : ReconcileOne(s, w)
-  \/ PassBegin
-  \/ \E s \in Svcs, w \in WriteFates : PassStep(s, w)
-  \/ PassEnd
-  \/ Crash
+  \/ \E s \in Svcs : \E sp \in SpecsOf(s) : H(UserPut(s, sp))
+  \/ \E s \in Svcs : H(UserDelete(s))
+  \/ \E L \in LayoutSet : H(UserLayout(L))
+  \/ \E s \in Svcs : H(Sync(s))
+  \/ H(PoolReconcile)
+  \/ \E s \in Svcs, w \in WriteFates : H(ReconcileOne(s, w))
+  \/ H(PassBegin)
+  \/ H(ListFail)
+  \/ \E s \in Svcs, w \in WriteFates : H(PassStep(s, w))
+  \/ H(PassEnd)
+  \/ H(Crash)
 
 SpecNoPrint == Init /\ [][Next]_vars
 Quiescent == /\ svcQ = {} /\ ~reload /\ ~poolEvt /\ pass = NULL /\ gate /\ ctl # NOCFG
              /\ \A s \in Svcs : (api[s] = NULL /\ cache[s] = NULL) \/ (api[s] # NULL /\ cache[s] # NULL /\ ~cache[s].stale)
 
 StateRec == [api |-> api, cache |-> cache, cfgApi |-> cfgApi, ctl |-> ctl, al |-> al, gate |-> gate, svcQ |-> svcQ,
-             reload |-> reload, poolEvt |-> poolEvt, pass |-> pass, q |-> Quiescent]
+             reload |-> reload, poolEvt |-> poolEvt, pass |-> pass, q |-> Quiescent, lf |-> lf]
 StateRecP == [api |-> api', cache |-> cache', cfgApi |-> cfgApi', ctl |-> ctl', al |-> al', gate |-> gate', svcQ |-> svcQ',
-              reload |-> reload', poolEvt |-> poolEvt', pass |-> pass', q |-> Quiescent']
+              reload |-> reload', poolEvt |-> poolEvt', pass |-> pass', q |-> Quiescent', lf |-> lf']
 Emit == PrintT(ToJson([pre |-> StateRec, act |-> act', post |-> StateRecP, n |-> nuser]))
 InitP == Init /\ PrintT(ToJson([init |-> StateRec, stale |-> Stale]))
 Spec == InitP /\ [][Next]_vars
-FairSpec == Spec /\ WF_vars(PoolReconcile) /\ WF_vars(PassBegin) /\ WF_vars(PassEnd)
-                 /\ WF_vars(\E s \in Svcs : ReconcileOne(s, "ok")) /\ WF_vars(\E s \in Svcs : PassStep(s, "ok"))
-                 /\ WF_vars(\E s \in Svcs : Sync(s))
+FairSpec == Spec /\ WF_vars(H(PoolReconcile)) /\ WF_vars(H(PassBegin)) /\ WF_vars(H(PassEnd))
+                 /\ WF_vars(H(\E s \in Svcs : ReconcileOne(s, "ok"))) /\ WF_vars(H(\E s \in Svcs : PassStep(s, "ok")))
+                 /\ WF_vars(H(\E s \in Svcs : Sync(s)))
 
 ----------------------------------------------------------------------------
 (* Role A: the properties on the design                                     *)
